@@ -3659,6 +3659,18 @@ void space_text()
                   // a '/' followed by '*' or '/' would start a comment
                   pc->SetFlagBits(PCF_FORCE_SPACE);
                }
+               else if (  (  pc->Is(CT_NUMBER)
+                          || pc->Is(CT_NUMBER_FP))
+                       && (  next->GetStr()[0] == '+'
+                          || next->GetStr()[0] == '-')
+                       && (  pc->GetStr()[pc->Len() - 1] == 'e'
+                          || pc->GetStr()[pc->Len() - 1] == 'E'
+                          || pc->GetStr()[pc->Len() - 1] == 'p'
+                          || pc->GetStr()[pc->Len() - 1] == 'P'))
+               {
+                  // '0xe' + '+1' or '1.e' + '-3' would be read as one number
+                  pc->SetFlagBits(PCF_FORCE_SPACE);
+               }
                // TODO:  what is the meaning of 4
                else if (  !kw1
                        && !kw2
